@@ -69,11 +69,7 @@ pub fn fs() -> &'static mut Fs {
 pub fn reset(data: &[u8]) {
     let f = fs();
     f.files = [EMPTY_FILE; 2];
-    let mut i = 0;
-    while i < data.len() {
-        f.files[0].data[i] = data[i];
-        i += 1;
-    }
+    f.files[0].data[..data.len()].copy_from_slice(data);
     f.files[0].len = data.len();
     f.step = 0;
     f.crash_at = u32::MAX;
@@ -169,12 +165,8 @@ impl File {
         let st = &mut fs().files[self.slot];
         let len = len as usize;
         // keep "bytes beyond len are zero"
-        let mut i = 0;
-        while i < CAP {
-            if i >= len {
-                st.data[i] = 0;
-            }
-            i += 1;
+        if len < st.len {
+            st.data[len..st.len].fill(0);
         }
         st.len = len;
         Ok(())
@@ -202,11 +194,7 @@ impl File {
             return Err(Error::from(ErrorKind::UnexpectedEof));
         }
         let pos = pos as usize;
-        let mut i = 0;
-        while i < buf.len() {
-            buf[i] = st.data[pos + i];
-            i += 1;
-        }
+        buf.copy_from_slice(&st.data[pos..pos + buf.len()]);
         self.pos.store((pos + buf.len()) as u64, std::sync::atomic::Ordering::Relaxed);
         Ok(())
     }
@@ -221,11 +209,7 @@ impl File {
             // POSIX: a zero-length write does not extend the file
             return Ok(());
         }
-        let mut i = 0;
-        while i < buf.len() {
-            st.data[pos + i] = buf[i];
-            i += 1;
-        }
+        st.data[pos..pos + buf.len()].copy_from_slice(buf);
         if pos + buf.len() > st.len {
             st.len = pos + buf.len();
         }
